@@ -401,7 +401,7 @@ def getRowTail (tc : TestCase) (s : RowIt) : GetRowRes :=
     | .err _ => .panic "unreachable"
     | .panic m => .panic m
     | .ok inputs =>
-      match genExpected tc top.entries with
+      match genExpected tc top.entries top.xcols with
       | .err _ => .panic "unreachable"
       | .panic m => .panic m
       | .ok expected =>
@@ -437,7 +437,7 @@ theorem getRowTail_sim (tc : TestCase) {s₁ s₂ : RowIt} (h : SimS s₁ s₂) 
     | panic m => simp [GRRel]
     | ok inputs =>
       simp only
-      cases genExpected tc top.entries with
+      cases genExpected tc top.entries top.xcols with
       | err e => simp [GRRel]
       | panic m => simp [GRRel]
       | ok expected =>
